@@ -15,6 +15,7 @@
 #include <atomic>
 #include <new>
 #include <sys/socket.h>
+#include <sys/ioctl.h>
 #include <sys/stat.h>
 #include <poll.h>
 #include <dirent.h>
@@ -234,6 +235,7 @@ struct Result {
 	double secs = 0;
 	bool threaded = false;
 	bool bad_alloc = false; // the library gave up with std::bad_alloc (reservation above the allocation limit)
+	int bursts = 0, bursts_separate = 0; // fragmented delivery: pieces sent / pieces the server had consumed before the next was sent
 };
 
 // hang bookkeeping: set while a stream is inside the server loop (read by a watchdog in the rapidcheck harness)
@@ -391,6 +393,91 @@ inline Result run_stream(const std::string& stream, const Opts& o)
 	}
 	if (sv[1] >= 0)
 		close(sv[1]);
+	return res;
+}
+
+// Fragmented delivery: the stream reaches the server end in the given pieces.  A feeder thread sends a piece, waits until
+// the server has consumed it (SIOCOUTQ of the sending end back to 0, bounded wait), pauses `pause_us` so that the reader is
+// back in its wait, then sends the next one; after the last piece it half-closes.  The server therefore really reads the
+// stream in separate bursts (how many were consumed separately is reported in the result).
+inline Result run_stream_pieces(const std::vector<std::string>& pieces, const Opts& o, int pause_us)
+{
+	Result res;
+	int sv[2];
+	if (socketpair(AF_UNIX, SOCK_STREAM, 0, sv) != 0) {
+		perror("socketpair");
+		_exit(2);
+	}
+	std::string stream;
+	for (auto& p : pieces)
+		stream += p;
+	const int WANT = 64 << 20;
+	if (stream.size() * 2 + 65536 >= (size_t)cur_buf(sv[1]))
+		grow_buf(sv[1], WANT);
+	if (reply_bound(stream, o) >= (size_t)cur_buf(sv[0]))
+		grow_buf(sv[0], WANT);
+	timeval tv = {6, 0};
+	setsockopt(sv[0], SOL_SOCKET, SO_SNDTIMEO, &tv, sizeof tv);
+	res.threaded = true;
+	int fd = sv[1];
+	Result* rp = &res;
+	const std::vector<std::string>* pp = &pieces;
+	std::thread feeder([fd, rp, pp, pause_us]() {
+		char buf[65536];
+		auto drain = [&]() {
+			ssize_t k;
+			while ((k = recv(fd, buf, sizeof buf, MSG_DONTWAIT)) > 0)
+				rp->reply.append(buf, (size_t)k);
+		};
+		for (size_t i = 0; i < pp->size(); i++) {
+			const std::string& pc = (*pp)[i];
+			size_t w = 0;
+			bool err = false;
+			while (w < pc.size()) {
+				ssize_t k = send(fd, pc.data() + w, pc.size() - w, MSG_NOSIGNAL);
+				if (k <= 0) {
+					err = true;
+					break;
+				}
+				w += (size_t)k;
+			}
+			rp->bursts++;
+			if (err || i + 1 == pp->size())
+				break;
+			int outq = 1;
+			for (int spin = 0; spin < 20000; spin++) { // <= ~2 s
+				if (ioctl(fd, TIOCOUTQ, &outq) != 0 || outq == 0)
+					break;
+				drain();
+				usleep(100);
+			}
+			if (outq == 0)
+				rp->bursts_separate++;
+			if (pause_us > 0)
+				usleep((useconds_t)pause_us);
+		}
+		shutdown(fd, SHUT_WR);
+		ssize_t k;
+		while ((k = read(fd, buf, sizeof buf)) > 0)
+			rp->reply.append(buf, (size_t)k);
+	});
+	{
+		RecServer srv(o);
+		double t0 = mono();
+		serve_cpu0().store(thread_cpu());
+		serve_started().store(t0);
+		try {
+			static_cast<asl::SocketServer&>(srv).serve(asl::Socket(sv[0]));
+		}
+		catch (const std::bad_alloc&) {
+			res.bad_alloc = true;
+		}
+		serve_started().store(0);
+		res.secs = mono() - t0;
+		res.seen.swap(srv.seen);
+	}
+	feeder.join();
+	close(sv[1]);
 	return res;
 }
 
